@@ -724,6 +724,7 @@ package decimal
 //@   label L10 modifies mem(z)
 //@   label L10 hint[head] mul_mono(x[SI], B-1, y)
 //@   label L10+5 hint assert(DX*18446744073709551616 + AX == old(x[SI])*y + R11 && DX < B)
+//@   label L10+5 hint forget(AX, DX, BX, CX, DX*18446744073709551616 + AX == old(x[SI])*y + R11_0 && DX < B && R11 == R11_0 && SI == SI_0)
 //@   label L10 hint assert(R11*B + z[SI-1] == R13*18446744073709551616 + R14 && z[SI-1] < B && SI == SI_0 + 1)
 //@   label L10 hint assert(R11*B + z[SI-1] == old(x[SI-1])*y + R11_0 && z[SI-1] < B && R11 < B && SI == SI_0 + 1)
 //@   label L10 hint Vdef(z, 0, SI-1)
@@ -752,6 +753,7 @@ package decimal
 //@   label L11 modifies mem(z)
 //@   label L11 hint[head] mul_mono(x[SI], B-1, y)
 //@   label L11+7 hint assert(DX*18446744073709551616 + AX == old(x[SI])*y + old(z[SI]) + R11 && DX < B)
+//@   label L11+7 hint forget(AX, DX, BX, CX, DX*18446744073709551616 + AX == old(x[SI])*y + old(z[SI]) + R11_0 && DX < B && R11 == R11_0 && SI == SI_0)
 //@   label L11 hint assert(R11*B + z[SI-1] == R13*18446744073709551616 + R14 && z[SI-1] < B && SI == SI_0 + 1)
 //@   label L11 hint assert(R11*B + z[SI-1] == old(x[SI-1])*y + old(z[SI-1]) + R11_0 && z[SI-1] < B && R11 < B && SI == SI_0 + 1)
 //@   label L11 hint Vdef(z, 0, SI-1)
